@@ -134,6 +134,7 @@ type Netceptor struct {
 	reservedServices         map[string]func(*MessageData) error
 	serviceAdsLock           *sync.RWMutex
 	serviceAdsReceived       map[string]map[string]*ServiceAdvertisement
+	serviceAdsWithdrawn      map[string]map[string]time.Time
 	sendServiceAdsChan       chan time.Duration
 	backendWaitGroup         sync.WaitGroup
 	backendCount             int
@@ -332,6 +333,7 @@ func NewWithConsts(ctx context.Context, nodeID string,
 		nameHashes:               make(map[uint64]string),
 		serviceAdsLock:           &sync.RWMutex{},
 		serviceAdsReceived:       make(map[string]map[string]*ServiceAdvertisement),
+		serviceAdsWithdrawn:      make(map[string]map[string]time.Time),
 		sendServiceAdsChan:       nil,
 		backendWaitGroup:         sync.WaitGroup{},
 		backendCount:             0,
@@ -1746,13 +1748,30 @@ func (s *Netceptor) handleServiceAdvertisement(data []byte, receivedFrom string)
 	if keepCur {
 		return nil
 	}
+	// A withdrawn service leaves no entry behind, so remember when it was withdrawn: anything that is
+	// not newer than the withdrawal (a delayed advertisement, a repeated withdrawal) must be ignored.
+	if withdrawnAt, ok := s.serviceAdsWithdrawn[si.NodeID][si.Service]; ok && !si.Time.After(withdrawnAt) {
+		if len(n) == 0 {
+			delete(s.serviceAdsReceived, si.NodeID)
+		}
+
+		return nil
+	}
 	if si.Cancel {
 		delete(s.serviceAdsReceived[si.NodeID], si.Service)
 		if len(s.serviceAdsReceived[si.NodeID]) == 0 {
 			delete(s.serviceAdsReceived, si.NodeID)
 		}
+		if _, ok := s.serviceAdsWithdrawn[si.NodeID]; !ok {
+			s.serviceAdsWithdrawn[si.NodeID] = make(map[string]time.Time)
+		}
+		s.serviceAdsWithdrawn[si.NodeID][si.Service] = si.Time
 	} else {
 		s.serviceAdsReceived[si.NodeID][si.Service] = si.ServiceAdvertisement
+		delete(s.serviceAdsWithdrawn[si.NodeID], si.Service)
+		if len(s.serviceAdsWithdrawn[si.NodeID]) == 0 {
+			delete(s.serviceAdsWithdrawn, si.NodeID)
+		}
 	}
 	s.flood(data, receivedFrom)
 
